@@ -215,6 +215,10 @@ TARGETED_CODE = [
     ("intro\n\n  ```\nab\n   cd\n\n  ef\n g\n  ```\n\nafter\n", {"top_code": ["ab\n cd\n\nef\ng"], "top_info": []}),
     ("intro\n\n   ~~~sh\n#!/bin/sh\n\n   echo hi\n  x\n   ~~~\n", {"top_code": ["#!/bin/sh\n\necho hi\nx"], "top_info": ["sh"]}),
     ("intro\n\n ```\n\n  a\n\n\n b\n ```\n", {"top_code": ["\n a\n\n\nb"], "top_info": []}),
+    # a paragraph that STARTS with a code span delimited by three backticks is no fence (a backtick fence's info string
+    # cannot hold a backtick): the document has no code block at all
+    ("``` use `x` ``` shows the idea and goes on for a while.\n\nnext paragraph here\n", {"top_code": [], "top_info": [], "no_code": True}),
+    ("- ```a `b` c``` in an item\n- second\n\n> ``` q `r` ``` quoted\n", {"top_code": [], "top_info": [], "no_code": True}),
 ]
 for _t, _m in TARGETED_CODE:
     META[_t] = _m
